@@ -280,7 +280,7 @@ def _vrt():
     return _V
 
 
-def explore_image(im, T, bound, poison, max_exec=3_000_000):
+def explore_image(im, T, bound, poison, max_exec=3_000_000, early_stop=None):
     V = _vrt()
     lout = np.zeros(im.shape, np.int32)
     l = np.zeros(im.shape, np.uint8)
@@ -296,7 +296,7 @@ def explore_image(im, T, bound, poison, max_exec=3_000_000):
 
     def observe(ret):
         return (int(ret), lout.tobytes())
-    r = V.explore(prepare, call, observe, T, bound, max_exec=max_exec)
+    r = V.explore(prepare, call, observe, T, bound, max_exec=max_exec, early_stop=early_stop)
     return r, (prepare, call, observe, lout)
 
 
@@ -333,7 +333,11 @@ def _run_sched(desc):
         for poison in POIS:
             case = {"kind": "sched", "shape": list(shp), "border": bd, "perm": list(perm), "T": T, "bound": bound,
                     "poison": list(poison)}
-            r, (prepare, call, observe, lout) = explore_image(im, T, bound, poison)
+            def bad(obs, _w=want, _n=n_want, _shape=im.shape):
+                if obs == ("DEADLOCK",):
+                    return True
+                return obs[0] != _n or not _same_partition(np.frombuffer(obs[1], np.int32).reshape(_shape), _w)
+            r, (prepare, call, observe, lout) = explore_image(im, T, bound, poison, early_stop=bad)
             sh.evaluations += 1
             sh.states += r["nodes"]
             sh.transitions += r["nodes"] - 1 + r["executions"]
